@@ -764,10 +764,13 @@ def classify_floats(case, blocks, clause, detail):
     ln = lines[i]
     mm = re.search(r'x=([-0-9.]+) w=([-0-9.]+) free ([-0-9.]+)\.\.([-0-9.]+)', detail)
     # F135: the line fits beside the floats only without its trailing space and is re-aligned in the width below them
-    if clause == 'float-start-x' and mm and case['ta'] in ('right', 'justify'):
+    if clause in ('float-start-x', 'float-fit') and mm and case['ta'] in ('right', 'justify'):
         x, w, lo, hi = (float(g) for g in mm.groups())
         over = max(x + w - hi, lo - x)
-        if w <= hi - lo + EPS < w + case['fs'] + 2 * EPS and over <= case['width'] + EPS:
+        # width of the line before justification
+        natural = len(ln['text'].strip(' ')) * case['fs'] if case['ta'] == 'justify' else w
+        if natural <= hi - lo + EPS < natural + case['fs'] + 2 * EPS and over <= case['width'] + EPS \
+                and w <= case['width'] + EPS:
             return 'float-line-realigned-with-width-including-trailing-space'
     # the second avoid_collisions of get_next_linebox is given the content height of the line (font size) instead of the
     # height of the line box: a float that only meets the lower half-leading of the line is ignored when the line is
